@@ -20,8 +20,8 @@ func init() {
 		Title: "JavaScript calls are isolated from each other and map values faithfully",
 		Explanation: "R20a set/delete symmetry on pooled VMs: every goja Runtime.Set in the repository is in the function that runs the program, with its name taken from ranging over a map A; a deferred function (Defer dominates the first Set and RunProgram) ranges over the same map cell A and deletes each name from the VM's global object; the deletion runs before sync.Pool.Put (same deferred function: Delete not reachable after Put; separate defers: Put registered first), Put is deferred, receives exactly the object Get returned, and the VM is not used after Put. " +
 			"R20b _node is current: the value stored under the _node argument name is computed from the function's own node parameter by a call chain that contains no cache (no LoadingCache.Get, no map lookup in package-level state); loader purity of every LoadingCache.Get in the package (free variables of the loader are the key or immutable). " +
-			"R20c rejection before export: Export() on the result is dominated by the false outcome of goja.IsNaN, IsInfinity, IsNull and IsUndefined on that same value, and by the nil edge of the RunProgram error. " +
-			"R20d argument pairing: the odd-length test dominates the pairing loop and returns an error; the name assertion is comma-ok with an error return. " +
+			"R20c rejection before export: Export() on the result is dominated by the false outcome of goja.IsNaN, IsInfinity, IsNull and IsUndefined on that same value, and by the nil edge of the RunProgram error (when the value is a parameter of an extracted classification helper whose callers can all be enumerated, the tests may instead guard the bound argument at every call site). " +
+			"R20d argument pairing: the odd-length test (len of the paired slice modulo 2) dominates the pairing loop and returns an error — in the pairing function itself or, for the argument it is given, at every call site of an extracted pairing helper; the name assertion is comma-ok with an error return. " +
 			"R20e compiled programs are used only as the argument of RunProgram. R20f the transform-result cache that memoises custom_func results is created per record (= C10 R10a): a javascript result computed for an ancestor node is never served to a later record.",
 		NotDecided: "the JS→Go value mapping performed by goja's Export; scripts that assign globals themselves (excluded by the statement); concurrency inside goja; a correct re-implementation of the rejection test that does not use goja's four predicates would be reported (idiom enumerated from the code base).",
 		Trusted:    append([]string{"goja: Runtime.Set/GlobalObject().Delete define/remove a global; *goja.Program is immutable; Export maps JS values as documented"}, commonTrusted...),
